@@ -196,7 +196,9 @@ func genScenario(r *common.Rand, flow string) (s ordgen.Scenario, tune int) {
 	s.Quote = quotes[r.Intn(len(quotes))]
 	ordScript := seller.P2PKH()
 	if r.Chance(70) {
-		ordScript = feegen.Inscription(seller.Hash160(), r.Bytes(r.Intn(30)), r.Bytes(r.Intn(60)))
+		// the ordinal still sits in the output that inscribed it: payloads below, at and above the lengths at which
+		// the push encoding changes (direct / OP_PUSHDATA1 / OP_PUSHDATA2; the OP_PUSHDATA4 ones: mintedFlowCases)
+		ordScript = ordgen.InscriptionScript(seller.Hash160(), r.Bytes(r.Intn(30)), r.Bytes(smallPayloadLen(r)))
 	}
 	ordSats := uint64(1)
 	if r.Chance(20) {
@@ -226,6 +228,10 @@ func genScenario(r *common.Rand, flow string) (s ordgen.Scenario, tune int) {
 	mk := func(v uint64) ordgen.U {
 		k := buyers[r.Intn(2)]
 		u := ordgen.U{Txid: common.Hex(r.Bytes(32)), Vout: uint32(r.Intn(4)), Sats: v, Script: common.Hex(k.P2PKH()), Key: k}
+		// the buyer pays with an output that carries an inscription of his own
+		if r.Chance(12) {
+			u.Script = common.Hex(ordgen.InscriptionScript(k.Hash160(), r.Bytes(r.Pick([]int{0, 1, 10, 24, 75, 76})), r.Bytes(smallPayloadLen(r))))
+		}
 		// several outputs of ONE earlier transaction fund the purchase (a payment and its change), or an output of the
 		// very transaction that created the ordinal: outpoints differ by their index only
 		if r.Chance(30) {
@@ -276,6 +282,14 @@ func genScenario(r *common.Rand, flow string) (s ordgen.Scenario, tune int) {
 	tune = w + 1 + r.Intn(n-1-w)
 	s.Funding[tune].Sats = s.Price + 10000000
 	return
+}
+
+// smallPayloadLen: mostly short, one in three at a push-encoding boundary that still fits a small case
+func smallPayloadLen(r *common.Rand) int {
+	if r.Chance(33) {
+		return r.Pick([]int{74, 75, 76, 77, 254, 255, 256, 257, 300})
+	}
+	return r.Intn(60)
 }
 
 func withTuned(s ordgen.Scenario, tune int, v uint64, note string) ordgen.Scenario {
@@ -670,11 +684,24 @@ func inscribeHistories(r *common.Rand) {
 	}
 }
 
-func inscriptionCases(r *common.Rand) {
+// minted: an inscription output as the library's own Inscribe built it (its script is also a CInscribe case of the
+// correspondence), on the P2PKH script of a key the harness holds: an output that can be sold, bid for or paid with.
+type minted struct {
+	Key     ordgen.Key
+	CTLen   int
+	DataLen int
+	Script  []byte
+}
+
+func inscriptionCases(r *common.Rand) (mints []minted) {
 	inscribeHistories(r)
 	prefix := func() []byte { return feegen.P2PKH(r.Bytes(20)) }
 	var small [][]byte
-	for _, dn := range dataSizes {
+	sizes := dataSizes
+	if c.Thorough() {
+		sizes = append(append([]int{}, dataSizes...), 74, 77, 254, 257, 65534, 65537)
+	}
+	for _, dn := range sizes {
 		for _, cn := range ctSizes {
 			big := dn > 300
 			if big && !c.Thorough() && cn != 24 && !(cn == 0 && dn == 65536) {
@@ -684,7 +711,11 @@ func inscriptionCases(r *common.Rand) {
 			if cn == 24 {
 				ct = []byte("text/plain;charset=utf-8")
 			}
-			s := inscribeCase(prefix(), ct, payload(r, dn), nil, true, true)
+			k := newKey(r)
+			s := inscribeCase(k.P2PKH(), ct, payload(r, dn), nil, true, true)
+			if s != nil {
+				mints = append(mints, minted{k, cn, dn, s})
+			}
 			if !big && s != nil {
 				small = append(small, s)
 			}
@@ -777,6 +808,102 @@ func inscriptionCases(r *common.Rand) {
 	for i := 0; i < 30; i++ {
 		parseCase("random", r.Bytes(r.Intn(60)))
 	}
+	return
+}
+
+// ---------- flows over outputs that Inscribe made ----------
+
+// mintedFlowCases: every inscription output of the grid above (content-type lengths x payload lengths at the push
+// boundaries 75/76, 255/256, 65535/65536 and beyond, exactly as the library's Inscribe built them) is traded while
+// it still sits in its inscribing output: as the ordinal that is listed / bid for (role ord), as what the buyer pays
+// with (role pay: one or more funding inputs, the dummy ones included), or both at once with two different
+// inscriptions (role both). The scenario around it is an amply funded base scenario; everything emitFlow states
+// about a completed transaction applies: each input executed by the real interpreter against its previous output,
+// seller output position, FIFO routing, fee — and a well-formed amply funded offer that is turned down is reported.
+// The long ones (payload of 64 KiB and more, OP_PUSHDATA4 or the largest OP_PUSHDATA2) get a shard of their own on
+// the Coq side, where transactions and preimages are compared through SHA-256.
+func mintedFlowCases(r *common.Rand, mints []minted) {
+	flows := []string{"list", "list2d", "bid", "bid2d"}
+	roles := []string{"ord", "pay", "both"}
+	var small []minted
+	for _, m := range mints {
+		if m.DataLen <= 300 {
+			small = append(small, m)
+		}
+	}
+	asOrd := func(s *ordgen.Scenario, m minted) {
+		s.Ord.Script, s.Ord.Key = common.Hex(m.Script), m.Key
+	}
+	asPay := func(s *ordgen.Scenario, i int, m minted) {
+		f := append([]ordgen.U{}, s.Funding...)
+		f[i].Script, f[i].Key = common.Hex(m.Script), m.Key
+		s.Funding = f
+	}
+	run := func(m minted, flow, role string) {
+		s, _ := genScenario(r, flow)
+		s.Note = "ample"
+		if role != "pay" {
+			asOrd(&s, m)
+		}
+		if role != "ord" {
+			pm := m
+			if role == "both" && len(small) > 0 {
+				pm = small[r.Intn(len(small))]
+			}
+			// one funding input for sure (any position: the one moved to the front, a dummy, the one that pays)
+			i := r.Intn(len(s.Funding))
+			asPay(&s, i, pm)
+			// and, with short inscriptions, some of the others too
+			for j := range s.Funding {
+				if j != i && len(small) > 0 && r.Chance(35) {
+					asPay(&s, j, small[r.Intn(len(small))])
+				}
+			}
+		}
+		if m.DataLen > 300 {
+			c.Weigh(c.ShardBytes) // a shard of its own
+		}
+		done := emitFlow(s)
+		c.Tally(fmt.Sprintf("minted/%s/%s/ct=%d/data=%d/%v", flow, role, m.CTLen, m.DataLen, done))
+	}
+	n := 0
+	for _, m := range mints {
+		if m.DataLen <= 300 {
+			// each short one once per run in quick (flow and role cycle, so that every payload length meets every
+			// flow over the seven content-type lengths), in every flow and role in thorough
+			if c.Thorough() {
+				for _, f := range flows {
+					for _, ro := range roles {
+						run(m, f, ro)
+					}
+				}
+			} else {
+				run(m, flows[n%4], roles[(n/4+n)%3])
+			}
+			n++
+			continue
+		}
+	}
+	// the long ones: in quick, each of the few the grid makes once, the first OP_PUSHDATA4 payloads as the ordinal of
+	// a listing and as a bidder's funding input; in thorough every one in two random (flow, role) combinations plus
+	// once as the ordinal of a listing
+	l := 0
+	plan := [][2]string{{"list2d", "ord"}, {"list", "ord"}, {"bid", "pay"}, {"bid2d", "ord"}}
+	for _, m := range mints {
+		if m.DataLen <= 300 {
+			continue
+		}
+		if c.Thorough() {
+			run(m, flows[l%2], "ord")
+			for k := 0; k < 2; k++ {
+				run(m, flows[r.Intn(4)], roles[r.Intn(3)])
+			}
+		} else {
+			p := plan[l%len(plan)]
+			run(m, p[0], p[1])
+		}
+		l++
+	}
 }
 
 // ---------- InscribeSpecificOrdinal / rangeAbove ----------
@@ -865,8 +992,9 @@ func main() {
 		bases *= 2
 	}
 	flowCases(r.Fork(), bases)
-	inscriptionCases(r.Fork())
+	mints := inscriptionCases(r.Fork())
+	mintedFlowCases(r.Fork(), mints)
 	rangeCases(r.Fork())
-	c.Stats.Rule = "flows: per flow (ListOrdinalForSale+AcceptOrdinalSaleListing, the 2-dummy variant, MakeBid+AcceptBid, the 2-dummy variant) seeded base scenarios: fresh secp256k1 keys for seller and 2 buyer keys, ordinal UTXO (P2PKH or P2PKH-inscription of the seller, 1/2/10/1000 sat), price from {1,2,545,546,1000,..,2^32+5,21e14} or random < 1e8, 2..5 funding UTXOs (3..5 for 2 dummies) with the UTXO worth more than the price at a random position and the others at price / price-1 / price/2 / small, one of 11 fee quotes (0..50 sat/byte, unequal std/data); in the standard flows the seller is paid on P2PKH or (one in four) on a 1-of-2 multisig, P2PK, one-byte, inscription or P2SH script; each base is run amply funded (a well-formed amply funded offer that is turned down is reported: funded-offer-rejected), then under- and over-funded by the harness's own fee estimate (size of the ample result x quote, independent of the flow's verdict), then at the fee boundary found by bisection on one UTXO's value (smallest value for which the flow returns a transaction) -1/0/+1 and at random points inside a 140-sat window on both sides, plus negatives (validation given another UTXO, too few UTXOs, no UTXO above the price, quote lacking a fee type, seller's ExpectedFQ 0.9..2x the bidder's quote at its own boundary). Every returned transaction: each input executed by the real interpreter (re-decoded tx, previous output from the scenario, FORKID+after-genesis), seller output at the ordinal's input index, FIFO routing of the ordinal's first satoshi computed over big integers, fee >= quoted fee of the final serialisation. inscription histories: 2..4 inscriptions on one transaction sharing one prefix object (from NewP2PKHFromPubKeyHash, with spare capacity, exact, or returned by ParseInscription), every output re-parsed afterwards; inscriptions: content-type lengths {0,1,24,75,76,255,256} x payload lengths {0,1,75,76,255,256,65535,65536,100000} (long ones for one content type in quick), script-like payloads, enriched OP_RETURN tails, random small; ParseInscription on all 144 pairs of 12 push encodings at the content-type/data positions, and bit flips / truncations / deletions / insertions / appends of inscribed scripts and random scripts; InscribeSpecificOrdinal on 0..4 inputs with values incl. 0, 2^63, 2^64-1, index up to len+1 and 2^31/2^32-1. distinct = distinct (flow, price, quote, funding values, ordinal script) / (prefix, content type, payload) / script / (values, index, satoshi); all cases non-trivial except rangeAbove on no inputs"
+	c.Stats.Rule = "flows: per flow (ListOrdinalForSale+AcceptOrdinalSaleListing, the 2-dummy variant, MakeBid+AcceptBid, the 2-dummy variant) seeded base scenarios: fresh secp256k1 keys for seller and 2 buyer keys, ordinal UTXO (P2PKH or P2PKH-inscription of the seller with a payload of 0..59 bytes or at a push-encoding boundary 74..77 / 254..257 / 300 bytes, 1/2/10/1000 sat; one funding UTXO in eight is an inscription output of the buyer of the same kind), price from {1,2,545,546,1000,..,2^32+5,21e14} or random < 1e8, 2..5 funding UTXOs (3..5 for 2 dummies) with the UTXO worth more than the price at a random position and the others at price / price-1 / price/2 / small, one of 11 fee quotes (0..50 sat/byte, unequal std/data); in the standard flows the seller is paid on P2PKH or (one in four) on a 1-of-2 multisig, P2PK, one-byte, inscription or P2SH script; each base is run amply funded (a well-formed amply funded offer that is turned down is reported: funded-offer-rejected), then under- and over-funded by the harness's own fee estimate (size of the ample result x quote, independent of the flow's verdict), then at the fee boundary found by bisection on one UTXO's value (smallest value for which the flow returns a transaction) -1/0/+1 and at random points inside a 140-sat window on both sides, plus negatives (validation given another UTXO, too few UTXOs, no UTXO above the price, quote lacking a fee type, seller's ExpectedFQ 0.9..2x the bidder's quote at its own boundary). Every returned transaction: each input executed by the real interpreter (re-decoded tx, previous output from the scenario, FORKID+after-genesis), seller output at the ordinal's input index, FIFO routing of the ordinal's first satoshi computed over big integers, fee >= quoted fee of the final serialisation. inscription histories: 2..4 inscriptions on one transaction sharing one prefix object (from NewP2PKHFromPubKeyHash, with spare capacity, exact, or returned by ParseInscription), every output re-parsed afterwards; inscriptions: content-type lengths {0,1,24,75,76,255,256} x payload lengths {0,1,75,76,255,256,65535,65536,100000} (long ones for one content type in quick; thorough adds 74,77,254,257,65534,65537), each minted by the library's Inscribe on the P2PKH script of a fresh key; flows over minted outputs: every output of that grid is then traded while it sits in its inscribing output — as the ordinal listed / bid for, as one or more of the buyer's funding inputs (dummy inputs included), or both with two different inscriptions — in an amply funded base scenario, flow and role cycling over the grid in quick (each short one once; the four long ones: 65535 bytes as the ordinal of a two-dummy listing, 65536 as the ordinal of a listing and as a bidder's funding input, 100000 as the ordinal of a two-dummy bid), every flow x role in thorough (long ones: three combinations each), all clauses checked on the completed transaction (every input through the real interpreter) and the long ones compared with the model through SHA-256 in a shard of their own; script-like payloads, enriched OP_RETURN tails, random small; ParseInscription on all 144 pairs of 12 push encodings at the content-type/data positions, and bit flips / truncations / deletions / insertions / appends of inscribed scripts and random scripts; InscribeSpecificOrdinal on 0..4 inputs with values incl. 0, 2^63, 2^64-1, index up to len+1 and 2^31/2^32-1. distinct = distinct (flow, price, quote, funding values, ordinal script) / (prefix, content type, payload) / script / (values, index, satoshi); all cases non-trivial except rangeAbove on no inputs"
 	c.Finish()
 }
